@@ -46,7 +46,7 @@ pub(crate) async fn listen(
     };
 
     let closed = if shutdown_requested {
-        crate::shutdown::close_within_bound(codec.graceful_shutdown()).await
+        crate::shutdown::close_within_bound(codec.protocol(), codec.graceful_shutdown()).await
     } else {
         codec.graceful_shutdown().await
     };
